@@ -440,3 +440,50 @@ func (s *Session) RunNode(n node.Type, repl bool) (o Outcome) {
 	}
 	return o
 }
+
+// ---------------------------------------------------------------- parse canary
+
+// canaryTexts are fixed statements whose parse outcome must not depend on anything parsed
+// earlier in the process: the parser is handed one string and keeps no session. They use the
+// constructs whose alternatives fail and roll back most often (empty argument lists, empty and
+// nested array literals, nested calls and parentheses, conditionals, loops, function literals).
+var canaryTexts = []string{
+	"f()\n",
+	"[]\n",
+	"g(h(), [])\n",
+	"a = ((1 + 2) * (3 - f(4, [5, [6, []]])))\n",
+	"if a < 2 {\nb = [a, f()]\n} else {\nb = g((a))\n}\n",
+	"for i, j <- fromto(0, 3), elems([1, [2], []]) {\nwrite(toa(i) + toa(j))\n}\n",
+	"k = (x, y) -> {\nz = x(y())\n(w) -> w + z\n}\n",
+	"while f(g(h(1))) {\nreturn [[[]]]\n}\n",
+	"1 +)\n",
+	"f(,)\n",
+	"q = [1, 2\n",
+}
+
+var canaryFirst string
+
+func canaryDigest() string {
+	var b strings.Builder
+	for _, t := range canaryTexts {
+		nodes, perr, pmsg := Parse(t)
+		fmt.Fprintf(&b, "%d|%s|%s;", len(nodes), perr, pmsg)
+	}
+	return b.String()
+}
+
+// ParseCanary parses the canary texts and compares the outcome (node counts, error messages)
+// with the outcome of the first call in this process. A difference means that parsing depends on
+// what was parsed before: a failed alternative, an earlier statement or an earlier session left
+// something behind in the parser.
+func ParseCanary() (same bool, detail string) {
+	d := canaryDigest()
+	if canaryFirst == "" {
+		canaryFirst = d
+		return true, ""
+	}
+	if d == canaryFirst {
+		return true, ""
+	}
+	return false, fmt.Sprintf("parse outcomes of the fixed canary statements (node count|error|panic per statement)\nat process start: %s\nnow:              %s", canaryFirst, d)
+}
